@@ -33,6 +33,13 @@ def getOptLabels (j : Json) : Except String (List (Option Label)) := do
     | .null => pure none
     | v => do return some (← chars v)
 
+/-- a list of Python values: JSON integers, `null` for anything that is not an `int` -/
+def getOptInts (j : Json) : Except String (List (Option Int)) := do
+  (← getArr j).mapM fun v =>
+    match v with
+    | .null => pure none
+    | v => do return some (← getInt v)
+
 def pairsJson (l : List (String × String)) : Json :=
   Json.arr (l.map fun (a, b) => Json.arr #[Json.str a, Json.str b]).toArray
 
@@ -97,7 +104,7 @@ def opValidate : Handler := fun j => do
       (← getStr (← field j "u")))
   | "sys" =>
     return resJson sysJson (mkSys (← getStr (← field j "space")) (← getStr (← field j "time")) (← getStr (← field j "quantity")))
-  | "index_map" => return resJson unitJson (vCheckIndexMap (← getIntList (← field j "im")) (← getIntList (← field j "env")))
+  | "index_map" => return resJson unitJson (vCheckIndexMap (← getOptInts (← field j "im")) (← getIntList (← field j "env")))
   | "environments" => return resJson unitJson (checkEnvironments (← getStrList (← field j "envs")))
   | _ => throw s!"unknown validate kind {kind}"
 
